@@ -135,7 +135,7 @@ def oracle(e, impl_tokens, n):
 
 
 def run(ctx):
-    n_cases = ctx.scale(2500, 60000)
+    n_cases = ctx.scale(2500, 250000)
     scripts = []
     exprs = {}
     for i in range(n_cases):
